@@ -274,3 +274,28 @@ def tx_interface(d, register=True):
     if register:
         return ti.DBusInterface(d.name, *args)
     return ti.DBusInterface(d.name, *args, noRegister=True)
+
+
+def prop_value(ds, sig):
+    """(typed reference value, Python value to assign) for a property of type sig; containers
+    are non-empty so that txdbus's first-element variant inference yields the declared type"""
+    t = sig
+    c = t[0]
+    if c == 'a':
+        et = t[1:]
+        n = 1 + ds.choose(3)
+        if et[0] == '{':
+            kt, vt = rc.split_sig(et[1:-1])
+            ref = []
+            seen = set()
+            for i in range(n):
+                k = value(ds, kt, 0)
+                if rc.canon(k) in seen:
+                    continue
+                seen.add(rc.canon(k))
+                ref.append((k, value(ds, vt, 0)))
+        else:
+            ref = [value(ds, et, 0) for _ in range(n)]
+    else:
+        ref = value(ds, t, 1)
+    return ref, to_txdbus(t, ref)
